@@ -29,11 +29,17 @@ def main():
             env["VSIM_NO_EVIDENCE"] = "1"
             r = subprocess.run([os.path.join(V, "bin/check"), m["prop"], "quick"], env=env, capture_output=True, text=True)
             viol = [l for l in r.stdout.splitlines() if l.startswith("  clause")]
-            res.append((m["id"], m["prop"], "CAUGHT" if r.returncode == 1 else "MISSED (exit %d)" % r.returncode, time.time() - t, viol[:1]))
+            status = "CAUGHT" if r.returncode == 1 else "MISSED (exit %d)" % r.returncode
+            # the replay file of the first violation must reproduce it in a fresh process
+            rp = [l.split("replay=")[1].strip() for l in r.stdout.splitlines() if l.startswith("VIOLATION") and "replay=" in l]
+            if r.returncode == 1 and rp:
+                rr = subprocess.run([os.path.join(V, "bin/replay"), rp[0]], env=env, capture_output=True, text=True)
+                status += " replay:%s" % ("reproduced" if rr.returncode == 1 and "reproduced:" in rr.stdout else "NOT-REPRODUCED(exit %d)" % rr.returncode)
+            res.append((m["id"], m["prop"], status, time.time() - t, viol[:1]))
             print(res[-1], flush=True)
     finally:
         shutil.rmtree(scratch, ignore_errors=True)
-    missed = [r for r in res if not r[2].startswith("CAUGHT")]
+    missed = [r for r in res if not r[2].startswith("CAUGHT") or "NOT-REPRODUCED" in r[2]]
     print("%d mutants, %d caught, %d not caught: %s" % (len(res), len(res) - len(missed), len(missed), [r[0] for r in missed]))
     sys.exit(1 if missed else 0)
 main()
